@@ -63,6 +63,7 @@ type FnGen struct {
 	ghosts   map[string]string // ghost var name -> comp
 	ghostTypes map[string]types.Type
 	closures map[ssa.Value]*ssa.MakeClosure
+	declaredEvents map[string]bool
 	notes    map[string]bool
 	W        []modEntry
 	modAll   bool
@@ -74,6 +75,8 @@ type FnGen struct {
 	debugNames map[string][]debugBinding
 	rangeIters map[ssa.Value]*rangeIter
 	localAllocs []Term
+	privateRefs map[string]string // ref term -> private component prefix (locals captured only by local closures)
+	privateOf   map[*ssa.Alloc]bool
 }
 
 type debugBinding struct {
@@ -121,6 +124,7 @@ func (fg *FnGen) reset(pass int) {
 	fg.havocAllSeen = false
 	fg.rangeIters = map[ssa.Value]*rangeIter{}
 	fg.localAllocs = nil
+	fg.privateRefs = map[string]string{}
 	if pass == 1 {
 		fg.compSorts = map[string]Sort{}
 		fg.compOrder = nil
@@ -288,13 +292,50 @@ func (fg *FnGen) havocAll(why string) {
 	fg.havocAllSeen = true
 	old := fg.allocCur()
 	for _, comp := range fg.compOrder {
-		if strings.HasPrefix(comp, "held:") || strings.HasPrefix(comp, "rheld:") || strings.HasPrefix(comp, "ghost:") {
-			continue // lock ownership and ghost variables are thread/verification-local
+		if isNonHeapComp(comp) {
+			continue // lock ownership, ghost variables and event counters are not heap: handled explicitly
+		}
+		if fg.g.isStableComp(comp) {
+			continue // stored only by its declared writers (checked by the package-wide SSA scan)
+		}
+		if strings.HasPrefix(comp, "H:local!") {
+			continue // private local: unreachable for callees (closures bound to it havoc it explicitly)
 		}
 		fg.havocComp(comp)
 	}
 	fg.markWritten("$all")
 	fg.assume(Ge(fg.allocCur(), old))
+}
+
+func isNonHeapComp(comp string) bool {
+	return strings.HasPrefix(comp, "held:") || strings.HasPrefix(comp, "rheld:") || strings.HasPrefix(comp, "ghost:") || strings.HasPrefix(comp, "cnt:")
+}
+
+// havocCounter: an event counter changed by an unknown amount; counters only grow.
+func (fg *FnGen) havocCounter(comp string, pos token.Pos) {
+	fg.compSort(comp, SInt)
+	old := fg.get(fg.cur, comp, SInt)
+	fg.effectCheck(comp, pos)
+	fg.havocComp(comp)
+	fg.assume(Ge(fg.cur.ver[comp], old))
+}
+
+// havocAllCounters: a dynamic call without contract may perform any event.
+func (fg *FnGen) havocAllCounters(pos token.Pos) {
+	for _, comp := range append([]string{}, fg.compOrder...) {
+		if strings.HasPrefix(comp, "cnt:") {
+			fg.havocCounter(comp, pos)
+		}
+	}
+	fg.markWritten("$allcnt")
+}
+
+// effectCheck: a verified function may only perform events it declares (modifies count(ev) / emits ev).
+func (fg *FnGen) effectCheck(comp string, pos token.Pos) {
+	if fg.c == nil || fg.declaredEvents[comp] || fg.declaredEvents["cnt:*"] {
+		return
+	}
+	fg.oblige("effect", strings.TrimPrefix(comp, "cnt:"), TFalse, pos, "event "+strings.TrimPrefix(comp, "cnt:")+" may happen here but the contract does not declare it (modifies count(...))")
 }
 
 func (fg *FnGen) allocCur() Term { return fg.get(fg.cur, "$alloc", SInt) }
@@ -334,24 +375,24 @@ func (fg *FnGen) join(b *ssa.BasicBlock, preds []*ssa.BasicBlock) *State {
 		}
 		st.ver[k] = c
 	}
-	// defers: longest common prefix
-	d0 := fg.endState[preds[0].Index].defers
-	n := len(d0)
-	for _, p := range preds[1:] {
-		d := fg.endState[p.Index].defers
-		k := 0
-		for k < n && k < len(d) && d[k] == d0[k] {
-			k++
-		}
-		if k != n || len(d) != n {
-			fg.note("conditional defer: deferred calls that are not on every path are dropped (over-approximation is NOT guaranteed)")
-			if fg.failed == "" {
-				fg.failed = "conditional defer"
+	// defers: ordered union; each deferred call carries the reach condition under which it was pushed
+	// and is executed conditionally at RunDefers
+	seenD := map[*ssa.Defer]bool{}
+	for _, p := range preds {
+		for _, d := range fg.endState[p.Index].defers {
+			if !seenD[d.instr] {
+				seenD[d.instr] = true
+				st.defers = append(st.defers, d)
 			}
 		}
-		n = k
 	}
-	st.defers = append([]*deferred(nil), d0[:n]...)
+	sort.SliceStable(st.defers, func(i, j int) bool {
+		a, b := st.defers[i].instr, st.defers[j].instr
+		if a.Block().Index != b.Block().Index {
+			return a.Block().Dominates(b.Block())
+		}
+		return false
+	})
 	return st
 }
 
@@ -585,6 +626,9 @@ func (fg *FnGen) deref(p *Val, pos token.Pos, what string) *Loc {
 	ref := p.one()
 	if fg.safety("nil") {
 		fg.oblige("nil", what, Not(Eq(ref, IntLit(0))), pos, "nil dereference")
+	}
+	if pfx, ok := fg.privateRefs[ref.S]; ok {
+		return &Loc{Prefix: pfx, Base: ref, T: T}
 	}
 	return &Loc{Prefix: typeKey(T), Base: ref, T: T}
 }
@@ -851,13 +895,21 @@ func (fg *FnGen) run() (err error) {
 			t := fg.evalBool(r.Expr, env)
 			fg.assertRaw(t)
 		}
-		if !fg.modAll {
-			for _, m := range c.Modifies {
+		fg.declaredEvents = map[string]bool{}
+		for _, em := range c.Emits {
+			fg.declaredEvents["cnt:"+em.Event] = true
+		}
+		for _, m := range c.Modifies {
+			if ev, ok := countEvent(m); ok {
+				fg.declaredEvents["cnt:"+ev] = true
+				if ev != "*" {
+					fg.compSort("cnt:"+ev, SInt)
+				}
+				continue
+			}
+			if !fg.modAll {
 				env := fg.env(fg.cur, fg.entry, nil)
 				fg.W = append(fg.W, fg.evalMod(m, env)...)
-			}
-			for _, em := range c.Emits {
-				fg.W = append(fg.W, modEntry{comp: "cnt:" + em.Event, whole: true})
 			}
 		}
 		fg.entry = fg.cur.clone()
@@ -974,8 +1026,12 @@ func (fg *FnGen) loopHead(b *ssa.BasicBlock, li *loopInfo, fpreds []*ssa.BasicBl
 			// ghost variables and lock ownership are not touched by havocAll (callees cannot see them),
 			// but the loop body itself may have changed them
 			for _, comp := range sortedKeys(mods) {
-				if _, ok := fg.compSorts[comp]; ok && (strings.HasPrefix(comp, "ghost:") || strings.HasPrefix(comp, "held:") || strings.HasPrefix(comp, "rheld:")) {
+				if _, ok := fg.compSorts[comp]; ok && isNonHeapComp(comp) {
+					oldv := fg.get(fg.cur, comp, fg.compSorts[comp])
 					fg.havocComp(comp)
+					if strings.HasPrefix(comp, "cnt:") {
+						fg.assume(Ge(fg.cur.ver[comp], oldv))
+					}
 				}
 			}
 		} else {
@@ -984,7 +1040,11 @@ func (fg *FnGen) loopHead(b *ssa.BasicBlock, li *loopInfo, fpreds []*ssa.BasicBl
 				if _, ok := fg.compSorts[comp]; !ok {
 					continue
 				}
+				oldv := fg.get(fg.cur, comp, fg.compSorts[comp])
 				fg.havocLoopComp(comp, pre)
+				if strings.HasPrefix(comp, "cnt:") {
+					fg.assume(Ge(fg.cur.ver[comp], oldv))
+				}
 			}
 			if mods["$alloc"] {
 				fg.assume(Ge(fg.allocCur(), oldAlloc))
@@ -1003,6 +1063,15 @@ func (fg *FnGen) loopHead(b *ssa.BasicBlock, li *loopInfo, fpreds []*ssa.BasicBl
 		fg.vals[phi] = nv
 		fg.assume(fg.valFacts(nv))
 		fg.assume(fg.allocFacts(nv))
+		if lo, bound, ok := monotonePhi(phi, li); ok {
+			// structural fact about counted loops (range index / for i := c; i+k < N): the phi starts at the
+			// constant c, is only incremented by a positive constant, and every back edge is guarded by
+			// (phi+k) < N with N loop-invariant; hence c <= phi and (phi == c or phi < N)
+			fg.assume(Ge(nv.L[0], IntLit(lo)))
+			if bound != nil {
+				fg.assume(Or(Eq(nv.L[0], IntLit(lo)), Lt(nv.L[0], fg.val(bound).one())))
+			}
+		}
 	}
 	// 3. assume invariant
 	li.hdrState = fg.cur.clone()
@@ -1107,4 +1176,82 @@ func (fg *FnGen) checkInvariant(li *loopInfo, st *State, from *ssa.BasicBlock, e
 		fg.obligeG("dec", fmt.Sprintf("loop%d", li.ordinal), edge, dec, li.header.Instrs[0].Pos(), "loop variant decreases and is bounded below")
 	}
 	fg.cur, fg.curReach = saveCur, saveReach
+}
+
+// countEvent recognises a `count(ev)` modifies entry.
+func countEvent(e CExpr) (string, bool) {
+	if c, ok := e.(*CCall); ok {
+		if id, ok := c.Fn.(*CIdent); ok && id.Name == "count" && len(c.Args) == 1 {
+			return c.Args[0].cstr(), true
+		}
+	}
+	return "", false
+}
+
+// monotonePhi recognises phi = [entry: const c, back edges: phi + positive const k] where the header
+// ends in `if (phi+k) < N` whose true branch dominates every back edge source and N is loop-invariant.
+func monotonePhi(phi *ssa.Phi, li *loopInfo) (int64, ssa.Value, bool) {
+	if !isIntType(phi.Type()) {
+		return 0, nil, false
+	}
+	hdr := phi.Block()
+	var lo int64
+	seenConst := false
+	var inc *ssa.BinOp
+	for i, e := range phi.Edges {
+		pred := hdr.Preds[i]
+		if li.body[pred.Index] && hdr.Dominates(pred) {
+			b, ok := e.(*ssa.BinOp)
+			if !ok || b.Op != token.ADD || b.X != ssa.Value(phi) || b.Block() != hdr {
+				return 0, nil, false
+			}
+			c, ok := b.Y.(*ssa.Const)
+			if !ok || c.Value == nil {
+				return 0, nil, false
+			}
+			if v, ok := constant.Int64Val(c.Value); !ok || v <= 0 {
+				return 0, nil, false
+			}
+			if inc != nil && inc != b {
+				return 0, nil, false
+			}
+			inc = b
+		} else {
+			c, ok := e.(*ssa.Const)
+			if !ok || c.Value == nil {
+				return 0, nil, false
+			}
+			v, ok := constant.Int64Val(c.Value)
+			if !ok {
+				return 0, nil, false
+			}
+			if !seenConst || v < lo {
+				lo = v
+			}
+			seenConst = true
+		}
+	}
+	if !seenConst || inc == nil {
+		return 0, nil, false
+	}
+	// header terminator: if inc < N goto body else exit
+	ifi, ok := hdr.Instrs[len(hdr.Instrs)-1].(*ssa.If)
+	if !ok {
+		return 0, nil, false
+	}
+	cmp, ok := ifi.Cond.(*ssa.BinOp)
+	if !ok || cmp.Op != token.LSS || cmp.X != ssa.Value(inc) {
+		return 0, nil, false
+	}
+	if ins, isIns := cmp.Y.(ssa.Instruction); isIns && li.body[ins.Block().Index] {
+		return 0, nil, false // bound not loop-invariant
+	}
+	body := hdr.Succs[0]
+	for i := range phi.Edges {
+		pred := hdr.Preds[i]
+		if li.body[pred.Index] && hdr.Dominates(pred) && !body.Dominates(pred) {
+			return 0, nil, false
+		}
+	}
+	return lo, cmp.Y, true
 }
